@@ -43,6 +43,14 @@ def logi_ref(ts, y0, r):
     return torch.stack([1 / (1 + (1 / y0 - 1) * torch.exp(-r * (t - ts[0]))) for t in ts])
 
 
+def tdep_f(t, y, r, unused):
+    return -(r[0] * t + r[1]) * y        # explicit time dependence, neither even nor odd in t
+
+
+def tdep_ref(ts, y0, r):
+    return torch.stack([y0 * torch.exp(-(0.5 * r[0] * (t * t - ts[0] * ts[0]) + r[1] * (t - ts[0]))) for t in ts])
+
+
 class LinObj(EditableModule):
     def __init__(self, A):
         self.A = A
@@ -93,6 +101,10 @@ def run_case(tid, fam, method, gname, req, cot_idx, placement, probe_bwd, order2
         A = torch.tensor([[-0.5, 1.0], [-1.0, -0.3]], dtype=DT) + 0.1 * torch.randn(2, 2, generator=g, dtype=DT)
         y0 = torch.tensor([1.0, -0.4], dtype=DT)
         p, ref_fn, fcn = A, lin_ref, lin_f
+    elif fam == "tdep":
+        p = torch.tensor([0.9, 0.5], dtype=DT)
+        y0 = torch.tensor([0.8, -0.6], dtype=DT)
+        ref_fn, fcn = tdep_ref, tdep_f
     else:
         p = torch.tensor([1.3, 0.7], dtype=DT)
         y0 = torch.tensor([0.2, 0.6], dtype=DT)
@@ -233,7 +245,7 @@ def case_list(thorough):
     out = []
     subsets = [{"y0"}, {"p"}, {"ts"}, {"y0", "p"}, {"y0", "p", "ts"}]
     # protocol runs (probe as backward method)
-    for fam in ("linear", "logistic"):
+    for fam in ("linear", "logistic", "tdep"):
         for gname in GRIDS:
             for req in (subsets if thorough else [{"y0", "p", "ts"}, {"p"}, {"y0"}]):
                 n = len(GRIDS[gname])
@@ -242,7 +254,7 @@ def case_list(thorough):
     out.append(("linear", "rk45", "inc", {"y0", "p", "ts"}, [0, 1, 2], "object", True, False))
     # numeric runs with the built-in backward (same method and options as forward), order 1 and 2
     for method in ("rk45", "rk23", "rk4", "rk38", "euler"):
-        for fam in ("linear", "logistic"):
+        for fam in ("linear", "logistic", "tdep"):
             for gname in (("inc", "dec", "ragged") if (thorough or method in ("rk45", "rk4")) else ("inc", "dec")):
                 for req in (subsets if (thorough or method == "rk45") else [{"y0", "p", "ts"}]):
                     n = len(GRIDS[gname])
